@@ -110,8 +110,6 @@ k13!(k13_sub_w2a, [2, 1], 3, 7);
 k13!(k13_sub_aw2, [1, 2], 3, 7);
 //@ k13_sub_w3 props=C18,C08 tier=thorough expect=pass fns=substring :: substring on a single 3-byte char
 k13!(k13_sub_w3, [3], 3, 7);
-//@ k13_sub_a4 props=C18,C08 tier=thorough expect=pass fns=substring :: substring on a 4-char ASCII string
-k13!(k13_sub_a4, [1, 1, 1, 1], 4, 8);
 //@ k13_sub_w2w2 props=C18,C08 tier=thorough expect=pass fns=substring :: substring on two 2-byte chars (4 bytes)
 k13!(k13_sub_w2w2, [2, 2], 4, 8);
 
@@ -149,76 +147,3 @@ proof!(k13_twin, 6, {
     assert!(false, "twin-reached");
 });
 
-// ---- join --------------------------------------------------------------------------------------
-fn str_qr(cs: &[char]) -> QueryResult {
-    let mut s = String::new();
-    let mut i = 0;
-    while i < cs.len() {
-        s.push(cs[i]);
-        i += 1;
-    }
-    QueryResult::Resolved(Rc::new(PathAwareValue::String((p(), s))))
-}
-
-//@ k16_join_2 props=C18 tier=quick expect=pass fns=join :: join of two 1-char ASCII strings (symbolic chars) with a 1-char delimiter (symbolic): result = s0 + d + s1, in query order; no trailing delimiter
-proof!(k16_join_2, 8, {
-    let a = sym_char_w(1);
-    let b = sym_char_w(1);
-    let d = sym_char_w(1);
-    let mut args = Vec::with_capacity(2);
-    args.push(str_qr(&[a]));
-    args.push(str_qr(&[b]));
-    let mut delim = String::new();
-    delim.push(d);
-    let r = join(&args, delim.as_str());
-    match &r {
-        Ok(PathAwareValue::String((_, s))) => {
-            assert!(s.len() == 3);
-            let by = s.as_bytes();
-            assert!(by[0] == a as u8 && by[1] == d as u8 && by[2] == b as u8);
-        }
-        _ => assert!(false),
-    }
-    kani::cover!(r.is_ok());
-    forget(r);
-    forget(args);
-    forget(delim);
-});
-
-//@ k16_join_edge props=C18,C08 tier=quick expect=pass fns=join :: join edge cases: empty argument list => "", single element => no delimiter, a non-string or unresolved member => error (never a wrong value)
-proof!(k16_join_edge, 8, {
-    let which: u8 = kani::any();
-    kani::assume(which < 4);
-    let mut delim = String::new();
-    delim.push(sym_char_w(1));
-    let mut args = Vec::with_capacity(2);
-    let a = sym_char_w(1);
-    match which {
-        0 => {}
-        1 => args.push(str_qr(&[a])),
-        2 => {
-            args.push(str_qr(&[a]));
-            args.push(QueryResult::Resolved(Rc::new(PathAwareValue::Int((p(), kani::any())))));
-        }
-        _ => {
-            args.push(str_qr(&[a]));
-            args.push(QueryResult::UnResolved(UnResolved {
-                traversed_to: Rc::new(PathAwareValue::Null(p())),
-                remaining_query: String::new(),
-                reason: None,
-            }));
-        }
-    }
-    let r = join(&args, delim.as_str());
-    match (&r, which) {
-        (Ok(PathAwareValue::String((_, s))), 0) => assert!(s.len() == 0),
-        (Ok(PathAwareValue::String((_, s))), 1) => assert!(s.len() == 1 && s.as_bytes()[0] == a as u8),
-        (Err(Error::IncompatibleError(_)), 2) | (Err(Error::IncompatibleError(_)), 3) => {}
-        _ => assert!(false),
-    }
-    kani::cover!(which == 0);
-    kani::cover!(which == 3);
-    forget(r);
-    forget(args);
-    forget(delim);
-});
